@@ -43,6 +43,10 @@ pub fn pools() -> Pools {
         lit("-9223372036854775808", "integer"),
         lit("9223372036854775808", "integer"),
         lit("+5", "integer"),
+        lit("18446744073709551616", "integer"),
+        lit("-9223372036854775809", "integer"),
+        lit("100000000000000000000", "integer"),
+        lit("-100000000000000000000", "integer"),
         lit("1a", "integer"),
         lit("a", "string"),
         lit("b", "string"),
@@ -177,6 +181,12 @@ fn sparql_term(t: &T) -> String {
 }
 
 const VARS: &[&str] = &["s", "p", "o", "x", "g"];
+
+/// integers around the machine-size boundaries and far beyond, for both sides of comparisons / arithmetic
+const BIGS: &[&str] = &[
+    "5", "-7", "9223372036854775807", "9223372036854775808", "-9223372036854775808", "-9223372036854775809",
+    "18446744073709551615", "18446744073709551616", "100000000000000000000", "-100000000000000000000",
+];
 
 #[derive(Clone)]
 enum Ctx {
@@ -353,6 +363,9 @@ impl QG<'_> {
     }
 
     fn constant(&mut self) -> String {
+        if self.rng.chance(1, 8) {
+            return self.rng.pick(BIGS).to_string();
+        }
         // mostly a term of the data, so that comparisons hold for some rows and fail for others
         if !self.data.is_empty() && self.rng.chance(3, 5) {
             let q = self.rng.pick(self.data).clone();
@@ -455,6 +468,13 @@ impl QG<'_> {
 
     fn tail(&mut self) -> String {
         let mut s = String::new();
+        if !self.scope_vars.is_empty() && self.rng.chance(1, 12) {
+            let v = self.evar();
+            let op = *self.rng.pick(&["+", "-", "*"][..]);
+            let big = *self.rng.pick(BIGS);
+            let e = if self.rng.chance(1, 2) { format!("{} {} {}", v, op, big) } else { format!("{} {} {}", big, op, v) };
+            s += &format!("BIND({} AS ?w) ", e);
+        }
         if self.rng.chance(1, 4) {
             let e = self.expr(2);
             let v = ["z", "y", "x"][self.rng.below(3)];
@@ -465,7 +485,11 @@ impl QG<'_> {
                 // a test on a bound variable that typically holds for some rows and fails for others
                 let v = self.evar();
                 let c = self.constant();
-                let t = match self.rng.below(17) {
+                let t = match self.rng.below(21) {
+                    17 => format!("{} {} {}", v, self.rng.pick(&["<", "<=", ">", ">=", "="][..]), self.rng.pick(BIGS)),
+                    18 => format!("{} {} {}", self.rng.pick(BIGS), self.rng.pick(&["<", "<=", ">", ">=", "="][..]), v),
+                    19 => format!("({} {} {}) {} {}", v, self.rng.pick(&["+", "-", "*"][..]), self.rng.pick(BIGS), self.rng.pick(&["<", ">=", "="][..]), self.rng.pick(BIGS)),
+                    20 => format!("({} {} {}) {} 0", self.rng.pick(BIGS), self.rng.pick(&["+", "-", "*"][..]), v, self.rng.pick(&["<", ">", "<=", ">="][..])),
                     9 => format!("{} >= 1", v),
                     10 => format!("{} <= {}", v, c),
                     11 => format!("{} + 1 > 2", v),
@@ -790,6 +814,22 @@ const FIXED: &[&str] = &[
     "SELECT * WHERE { ?s ?p ?o FILTER(?o = 1) }",
     "SELECT * WHERE { ?s ?p ?o FILTER(?o < 2) }",
     "SELECT * WHERE { ?s ?p ?o FILTER(?o = ?s) }",
+    "ASK { FILTER(5 < 100000000000000000000) }",
+    "ASK { FILTER(100000000000000000000 < 5) }",
+    "ASK { FILTER(5 <= 9223372036854775808) }",
+    "ASK { FILTER(5 > -9223372036854775809) }",
+    "ASK { FILTER(-9223372036854775809 >= 5) }",
+    "ASK { FILTER(18446744073709551616 > 9223372036854775807) }",
+    "ASK { FILTER(9223372036854775807 = 9223372036854775808 - 1) }",
+    "SELECT * WHERE { BIND(5 - 100000000000000000000 AS ?d) BIND(100000000000000000000 - 5 AS ?e) BIND(5 + 100000000000000000000 AS ?f) }",
+    "SELECT * WHERE { BIND(9223372036854775807 + 1 AS ?d) BIND(-9223372036854775808 - 1 AS ?e) BIND(9223372036854775807 * 2 AS ?f) BIND(3 * 100000000000000000000 AS ?g) }",
+    "SELECT * WHERE { ?s ?p ?o FILTER(?o < 200000000000000000000) }",
+    "SELECT * WHERE { ?s ?p ?o FILTER(200000000000000000000 > ?o) }",
+    "SELECT * WHERE { ?s ?p ?o FILTER(?o <= 9223372036854775808) }",
+    "SELECT * WHERE { ?s ?p ?o FILTER(?o >= -9223372036854775809) }",
+    "SELECT * WHERE { ?s ?p ?o BIND(?o - 100000000000000000000 AS ?d) BIND(100000000000000000000 - ?o AS ?e) }",
+    "SELECT * WHERE { ?s ?p ?o . ?x ?p ?y FILTER(?o < ?y) }",
+    "SELECT * WHERE { ?s ?p ?o . ?x ?p ?y BIND(?o - ?y AS ?d) FILTER(?o >= ?y) }",
     "SELECT * WHERE { ?s ?p ?o BIND(!(?o < ?o) AS ?z) }",
     "SELECT * WHERE { ?s ?p ?o . ?s ?p ?x FILTER(!(?o < ?x)) }",
     "SELECT * WHERE { ?s ?p ?o . ?s ?p ?x FILTER(!(?o = ?x)) }",
@@ -873,6 +913,16 @@ pub fn generate(ctx: &mut GenCtx) {
             Q { s: qd.clone(), p: q.clone(), o: T::Bnode("n0".into()), g: None },
             Q { s: T::Bnode("n0".into()), p: p.clone(), o: qd.clone(), g: Some(T::Bnode("g".into())) },
             Q { s: iri("x:g1"), p: p.clone(), o: iri("x:g1"), g: g1.clone() },
+        ]);
+        v.push(vec![
+            Q { s: a.clone(), p: p.clone(), o: lit("5", "integer"), g: None },
+            Q { s: a.clone(), p: p.clone(), o: lit("-7", "integer"), g: None },
+            Q { s: b.clone(), p: p.clone(), o: lit("9223372036854775807", "integer"), g: None },
+            Q { s: b.clone(), p: p.clone(), o: lit("9223372036854775808", "integer"), g: None },
+            Q { s: b.clone(), p: p.clone(), o: lit("-9223372036854775808", "integer"), g: None },
+            Q { s: a.clone(), p: p.clone(), o: lit("-9223372036854775809", "integer"), g: None },
+            Q { s: a.clone(), p: p.clone(), o: lit("100000000000000000000", "integer"), g: None },
+            Q { s: b.clone(), p: p.clone(), o: lit("18446744073709551616", "integer"), g: g1.clone() },
         ]);
         v.push(vec![
             Q { s: a.clone(), p: p.clone(), o: lit("true", "boolean"), g: None },
